@@ -60,6 +60,19 @@ Definition clk_call (c : clk) (x : cmd) : reply * clk :=
   | r :: rs => (r, mk_clk rs (x :: c_log c))
   end.
 
+(** Operations that talk to the clock: the clock (remaining replies, command
+    log) is threaded through and SURVIVES a panic, so that the commands issued
+    before a panic are part of the model's observable behaviour. *)
+Definition CM (A : Type) : Type := clk -> clk * outcome A.
+Definition mret {A} (a : A) : CM A := fun c => (c, Ok a).
+Definition mbind {A B} (m : CM A) (f : A -> CM B) : CM B :=
+  fun c => let '(c1, r) := m c in
+           match r with Ok a => f a c1 | Panic s => (c1, Panic s) end.
+Definition mlift {A} (o : outcome A) : CM A := fun c => (c, o).
+Definition mcall (x : cmd) : CM reply := fun c => let '(r, c') := clk_call c x in (c', Ok r).
+Notation "'let*' x ':=' e 'in' f" := (mbind e (fun x => f))
+  (at level 200, x pattern, e at level 100, f at level 200, right associativity).
+
 (** ---- checked / wrapping fixed-point arithmetic on Time and Duration ---- *)
 Section Arith.
   Variable dbg : bool.
@@ -409,41 +422,51 @@ Section Kalman.
       else s3 in
     Ok s4.
 
-  Definition ensure_freq_init (s : kstate) (c : clk) : kstate * clk :=
+  Definition set_cur (s : kstate) (f : option float) : kstate :=
+    mk_kstate (k_run s) (k_wan s) (k_score s) (k_wander s) (k_wme s) (k_est s) f (k_near s).
+  Definition set_filters (s : kstate) (run wan : option inner) : kstate :=
+    mk_kstate run wan (k_score s) (k_wander s) (k_wme s) (k_est s) (k_cur s) (k_near s).
+  Definition set_run (s : kstate) (run : option inner) : kstate := set_filters s run (k_wan s).
+
+  Definition ensure_freq_init (s : kstate) : CM kstate :=
     match k_cur s with
-    | Some _ => (s, c)
+    | Some _ => mret s
     | None =>
-        let '(r, c') := clk_call c (SetFreq fzero) in
+        let* r := mcall (SetFreq fzero) in
         match r with
-        | Some _ => (mk_kstate (k_run s) (k_wan s) (k_score s) (k_wander s) (k_wme s) (k_est s) (Some fzero) (k_near s), c')
-        | None => (s, c')
+        | Some _ => mret (set_cur s (Some fzero))
+        | None => mret s
         end
     end.
 
-  Definition change_frequency (s : kstate) (target : float) (c : clk) : outcome (kstate * clk) :=
+  (* the frequency handed to Clock::set_frequency *)
+  Definition freq_command (s : kstate) (cur target : float) : float :=
+    cur +. clamp_adjustment cur (target -. base_freq_offset (k_run s) *. c_1e6) (c_max_freq_offset cfg).
+
+  Definition change_frequency (s : kstate) (target : float) : CM kstate :=
     match k_cur s with
     | Some cur =>
         let error_ppm := clamp_adjustment cur (target -. base_freq_offset (k_run s) *. c_1e6) (c_max_freq_offset cfg) in
-        let '(r, c') := clk_call c (SetFreq (cur +. error_ppm)) in
+        let* r := mcall (SetFreq (cur +. error_ppm)) in
         match r with
         | Some time =>
-            let! run := base_freq_steer dbg cfg (k_run s) error_ppm time (k_wander s) in
-            let! wan := base_freq_steer dbg cfg (k_wan s) error_ppm time (k_wander s) in
-            Ok (mk_kstate run wan (k_score s) (k_wander s) (k_wme s) (k_est s) (Some (cur +. error_ppm)) (k_near s), c')
-        | None => Ok (s, c')
+            let* run := mlift (base_freq_steer dbg cfg (k_run s) error_ppm time (k_wander s)) in
+            let* wan := mlift (base_freq_steer dbg cfg (k_wan s) error_ppm time (k_wander s)) in
+            mret (set_cur (set_filters s run wan) (Some (cur +. error_ppm)))
+        | None => mret s
         end
-    | None => Ok (s, c)
+    | None => mret s
     end.
 
-  Definition kalman_step (s : kstate) (c : clk) (offset : float) : outcome (kstate * clk) :=
-    let! d := d_from_seconds dbg (-. offset) in
-    let '(r, c') := clk_call c (StepClock d) in
+  Definition kalman_step (s : kstate) (offset : float) : CM kstate :=
+    let* d := mlift (d_from_seconds dbg (-. offset)) in
+    let* r := mcall (StepClock d) in
     match r with
     | Some _ =>
-        let! run := base_offset_steer dbg (k_run s) (-. offset) in
-        let! wan := base_offset_steer dbg (k_wan s) (-. offset) in
-        Ok (mk_kstate run wan (k_score s) (k_wander s) (k_wme s) (k_est s) (k_cur s) (k_near s), c')
-    | None => Ok (s, c')
+        let* run := mlift (base_offset_steer dbg (k_run s) (-. offset)) in
+        let* wan := mlift (base_offset_steer dbg (k_wan s) (-. offset)) in
+        mret (set_filters s run wan)
+    | None => mret s
     end.
 
   Definition mean_delay_update (s : kstate) : outcome (option Z) :=
@@ -460,66 +483,54 @@ Section Kalman.
     | None => Panic site_clamp_assert
     end.
 
-  Definition kalman_steer (s : kstate) (c : clk) : outcome (kstate * clk * fupdate) :=
+  Definition kalman_steer (s : kstate) : CM (kstate * fupdate) :=
     let error := base_offset (k_run s) in
     if fabs error <. dur_seconds (c_step_threshold cfg) then
-      let! target := steer_target s in
-      let! (s', c') := change_frequency s target c in
-      let! md := mean_delay_update s' in
-      Ok (s', c', (true, md))
+      let* target := mlift (steer_target s) in
+      let* s' := change_frequency s target in
+      let* md := mlift (mean_delay_update s') in
+      mret (s', (true, md))
     else
-      let! (s', c') := kalman_step s c error in
-      let! md := mean_delay_update s' in
-      Ok (s', c', (false, md)).
+      let* s' := kalman_step s error in
+      let* md := mlift (mean_delay_update s') in
+      mret (s', (false, md)).
 
   Definition variance_factor (s : kstate) : outcome float :=
     let! mv := est_measurement_variance cfg (k_est s) in
     Ok (mv *. (if e_peer (k_est s) then c_peer_factor cfg else fone)).
 
-  Definition kalman_measurement (s : kstate) (m : meas) (c : clk) : outcome (kstate * clk * fupdate) :=
-    if negb (base_after_filter_time (k_run s) (m_time m)) then Ok (s, c, fupdate_default)
+  Definition absorb_with (s : kstate) (h : mat) (z : Z) : CM kstate :=
+    let* s' := ensure_freq_init s in
+    let* v := mlift (variance_factor s') in
+    mret (set_run s' (base_absorb_offset cfg (k_run s') h (dur_seconds z) v)).
+
+  Definition kalman_measurement (s : kstate) (m : meas) : CM (kstate * fupdate) :=
+    if negb (base_after_filter_time (k_run s) (m_time m)) then mret (s, fupdate_default)
     else
-      let! est := est_absorb dbg cfg (k_est s) m (base_freq_offset (k_run s)) in
+      let* est := mlift (est_absorb dbg cfg (k_est s) m (base_freq_offset (k_run s))) in
       let s1 := mk_kstate (k_run s) (k_wan s) (k_score s) (k_wander s) (k_wme s) est (k_cur s) (k_near s) in
-      let! s2 := update_wander s1 m in
-      let! run := base_progress dbg cfg (k_run s2) (m_time m) (k_wander s2) in
-      let s3 := mk_kstate run (k_wan s2) (k_score s2) (k_wander s2) (k_wme s2) (k_est s2) (k_cur s2) (k_near s2) in
-      let! (s4, c4) :=
-        match m_sync m with
-        | Some so =>
-            let '(s', c') := ensure_freq_init s3 c in
-            let! v := variance_factor s' in
-            Ok (mk_kstate (base_absorb_offset cfg (k_run s') H_SYNC (dur_seconds so) v)
-                          (k_wan s') (k_score s') (k_wander s') (k_wme s') (k_est s') (k_cur s') (k_near s'), c')
-        | None => Ok (s3, c)
-        end in
-      let! (s5, c5) :=
-        match m_dly m with
-        | Some d =>
-            let '(s', c') := ensure_freq_init s4 c4 in
-            let! v := variance_factor s' in
-            Ok (mk_kstate (base_absorb_offset cfg (k_run s') H_DELAY (dur_seconds d) v)
-                          (k_wan s') (k_score s') (k_wander s') (k_wme s') (k_est s') (k_cur s') (k_near s'), c')
-        | None => Ok (s4, c4)
-        end in
-      let! s6 :=
+      let* s2 := mlift (update_wander s1 m) in
+      let* run := mlift (base_progress dbg cfg (k_run s2) (m_time m) (k_wander s2)) in
+      let s3 := set_run s2 run in
+      let* s4 := match m_sync m with Some so => absorb_with s3 H_SYNC so | None => mret s3 end in
+      let* s5 := match m_dly m with Some d => absorb_with s4 H_DELAY d | None => mret s4 end in
+      let* s6 :=
         match m_peer m with
         | Some pd =>
-            let! v := variance_factor s5 in
-            Ok (mk_kstate (base_absorb_peer (k_run s5) (dur_seconds pd) v)
-                          (k_wan s5) (k_score s5) (k_wander s5) (k_wme s5) (k_est s5) (k_cur s5) (k_near s5))
-        | None => Ok s5
+            let* v := mlift (variance_factor s5) in
+            mret (set_run s5 (base_absorb_peer (k_run s5) (dur_seconds pd) v))
+        | None => mret s5
         end in
-      kalman_steer s6 c5.
+      kalman_steer s6.
 
-  Definition kalman_update (s : kstate) (c : clk) : outcome (kstate * clk * fupdate) :=
-    let! (s', c') := change_frequency s fzero c in
-    let! md := mean_delay_update s' in
-    Ok (s', c', (false, md)).
+  Definition kalman_update (s : kstate) : CM (kstate * fupdate) :=
+    let* s' := change_frequency s fzero in
+    let* md := mlift (mean_delay_update s') in
+    mret (s', (false, md)).
 
   (* demobilize(self): the filter is consumed; only the clock effect remains *)
-  Definition kalman_demobilize (s : kstate) (c : clk) : outcome clk :=
-    let! (_, c') := change_frequency s fzero c in Ok c'.
+  Definition kalman_demobilize (s : kstate) : CM unit :=
+    let* _ := change_frequency s fzero in mret tt.
 
   (* current_estimates : (offset_from_master, mean_delay) *)
   Definition kalman_estimates (s : kstate) : outcome (Z * Z) :=
